@@ -550,3 +550,39 @@ def finding_key(c, got, exp):
     if isinstance(got, dict) and "err" in got and "err" not in exp:
         return f"{c['v']['t']}:{last}:raises-{got.get('exc', '')}"
     return f"{c['v']['t']}:{last}:wrong-result"
+
+
+# ------------------------------------------------------------------ history / aliasing probe (see core.run_check)
+def live_cases(tier, rng):
+    out = []
+    for c in cases("quick", rng):
+        if c["op"] == "program" and len(c["ops"]) >= 1:
+            out.append(c)
+        if len(out) >= (3000 if tier in ("thorough", "widen") else 700):
+            break
+    return out
+
+
+def impl_live(c):
+    """the live result object of the program and a canonicaliser for it"""
+    import bionumpy as bnp
+    holder = {}
+    orig_observe = _observe
+
+    def run():
+        global _observe
+        captured = {}
+
+        def spy(v, enc_name):
+            captured["v"] = v
+            return orig_observe(v, enc_name)
+        _observe = spy
+        try:
+            impl(c)
+        finally:
+            _observe = orig_observe
+        return captured.get("v")
+    v = run()
+    if v is None:
+        raise ValueError("no live value")
+    return v, (lambda obj: orig_observe(obj, c["enc"]))
